@@ -188,7 +188,7 @@ PROPS = {
         "design_ref": "DESIGN.md §3.6, §3.21, §4 C12",
     },
     "C03": {
-        "rules": ["FRONTPIPE", "OBLIG", "BOUNDFORM", "OPTPRED", "TYPEDISC", "CONDSPEC", "WINALIAS@bounds", "ALIASCLOSED", "WINCOMPOSE", "EXH", "TRAV@C03"],
+        "rules": ["FRONTPIPE", "OBLIG", "BOUNDFORM", "OPTPRED", "FIELDS", "TYPEDISC", "CONDSPEC", "WINALIAS@bounds", "ALIASCLOSED", "WINCOMPOSE", "EXH", "TRAV@C03"],
         "thorough": [],
         "technique": "static analysis: ordered must-call pipeline at definition time, per-statement-kind obligation table for the bounds checker, formula-shape patterns (0 <= i < dim, 0 < size, 0 <= hi-lo), alias-closure of bounds effects",
         "level_text": "Structural clauses: every parsed procedure passes TypeChecker -> CheckBounds -> Check_Aliasing unconditionally, on the same object, and recorded errors raise; "
@@ -201,7 +201,7 @@ PROPS = {
         "design_ref": "DESIGN.md §3.15, §4 C03",
     },
     "C06": {
-        "rules": ["FWDTHREAD", "FWDHELPERS", "PATHIDX", "FWDSIB", "FWDPRESENT", "FWDWALK"],
+        "rules": ["FWDTHREAD", "FWDHELPERS", "PATHIDX", "FWDSIB", "FWDPRESENT", "FWDWALK", "APIFWD"],
         "thorough": [],
         "technique": "static analysis: abstract interpretation of every rewrite with a type system over tree epochs (cursor/forwarder/tree, relative to the current tree); metavariable patterns for the shared multi-edit helpers and the provenance walk",
         "level_text": "Structural clauses, decided on every path of every editing function: each elementary edit acts on a cursor into the *current* tree (never a stale one), each edit's "
